@@ -23,7 +23,7 @@ def run(ctx, prove=True):
     ctx.assumptions += ["RulesAreFunctions: within one fix run a rule proposes the same fixes on the same tree (sampled contract, needed to tabulate the loop)"]
     ctx.partial += ["what each rule proposes and what apply_fixes returns are tables recorded from the real run, not modelled"]
     fixchecks.loop_correspondence(ctx, 24, 600)
-    fixchecks.run_universe(ctx, PROP, RULESETS, ctx.budget(160, 10 ** 9), WHAT)
+    fixchecks.run_universe(ctx, PROP, RULESETS, ctx.budget(300, 10 ** 9), WHAT, focus=("edge", "cmt"))
 
 
 def search(ctx):
